@@ -342,6 +342,8 @@ def deck_bytes(deck):
             data = orphaned_last_slide(data)
         elif how == "nonm":
             data = without_presentation_notes_master_rel(data)
+        elif how == "jumpdel":
+            data = with_jump_target_deleted(data)
         else:
             data = renamed(data, how) or data
     else:
@@ -380,6 +382,39 @@ def without_presentation_notes_master_rel(data):
         root.remove(el)
     pkg.set_member(pp, etree.tostring(root, xml_declaration=True, encoding="UTF-8", standalone=True))
     pkg.set_member(O.rels_name(pp), O.build_rels([(r.id, r.type, r.mode, r.target) for r in rels if r not in nm]))
+    return pkg.to_bytes()
+
+
+def with_jump_target_deleted(data):
+    """variant of a deck in which a slide that another slide jumps to (click action) was deleted by the usual recipe
+    (p:sldId and the presentation's relationship removed): the slide part stays in the package, reachable through
+    the jump only"""
+    from pptx import Presentation
+    # the jump goes to the LAST slide, so that the slide parts that stay listed keep the names slide1..n-1 (a deleted
+    # slide in front would collide with a renumbered one: the known hazard of that recipe, not this property's subject)
+    prs = Presentation(io.BytesIO(data))
+    if len(prs.slides) < 2:
+        return data
+    src = [sh for sh in prs.slides[0].shapes if hasattr(sh, "click_action") and type(sh).__name__ in ("Shape", "Picture")]
+    if not src:
+        return data
+    src[0].click_action.target_slide = prs.slides[len(prs.slides) - 1]
+    buf = io.BytesIO()
+    prs.save(buf)
+    pkg = O.Pkg.read(buf.getvalue())
+    pp = [r.resolved for r in pkg.rels("/") if r.type.endswith("/officeDocument")][0]
+    prels = list(pkg.rels(pp))
+    slides = {r.resolved: r for r in prels if r.type.endswith("/slide")}
+    target = sorted(slides, key=lambda n: int("".join(ch for ch in n.rsplit("/", 1)[1] if ch.isdigit()) or 0))[-1]
+    rid = slides[target].id
+    root = etree.fromstring(pkg.members[pp])
+    ns = {"p": "http://schemas.openxmlformats.org/presentationml/2006/main"}
+    R = "{http://schemas.openxmlformats.org/officeDocument/2006/relationships}id"
+    for el in root.findall("p:sldIdLst/p:sldId", ns):
+        if el.get(R) == rid:
+            el.getparent().remove(el)
+    pkg.set_member(pp, etree.tostring(root, xml_declaration=True, encoding="UTF-8", standalone=True))
+    pkg.set_member(O.rels_name(pp), O.build_rels([(r.id, r.type, r.mode, r.target) for r in prels if r.id != rid]))
     return pkg.to_bytes()
 
 
@@ -539,6 +574,7 @@ def jobs(tier):
     # the generated deck is the richest one: several jobs (= several seeds) of plans of its own
     js += [{"decks": ["generated"], "n": 40 if tier == "thorough" else 12} for _ in range(8 if tier == "thorough" else 4)]
     js += [{"decks": ["generated|nonm"], "n": 40 if tier == "thorough" else 12} for _ in range(2)]
+    js += [{"decks": ["generated|jumpdel"], "n": 40 if tier == "thorough" else 12} for _ in range(2)]
     return js
 
 
